@@ -4,7 +4,10 @@ Lean: executable model `Conv.*` (lean/Model/Conv128.lean) over the binary64 mode
 theorems in lean/Props/C02.lean (helper lemmas lean/Lemmas/F64*.lean, lean/Lemmas/Conv128*.lean).
 
 Areas (harness go/cmd/c02):
-  conv  tie lines `u|i fromfloat/asfloat/fromstring/unmarshal/frombig/asbig/str/narrow/from64/fromu64` and `consts`:
+  conv  tie lines `u|i fromfloat/asfloat/fromstring/unmarshal/frombig/asbig/str/narrow/from64/fromu64`, the remaining
+        entry points `asbigfloat` (precision, exact integer, accuracy), `float64m` (Float64() of json.Number), `yamlcb`
+        (UnmarshalYAML with a storing / silent / failing callback), `scantok` (Scan with a delivering / failing
+        ScanState) and `consts`:
         real code vs Lean model, line by line (floats as IEEE bit patterns, strings as hex bytes)
   f64   `f64op <op> <bits> <bits>`: the binary64 model itself vs the hardware (add sub mul div math.Mod neg
         float64(uint64) float64(int64) uint64(f) int64(f) comparisons Nextafter-toward-zero)
@@ -15,6 +18,14 @@ Areas (harness go/cmd/c02):
         the flags # + space, zero padding, width, precision; v s and the bad verbs) is scanned back: with the verb it
         was printed with the identical value must come back; with %v, Sscan, Fscan: Scan(token) == FromString(token),
         identical value for self-describing texts
+  words FromBigInt / ToBigInt at the level of big.Words: `u|i frombigw <sign> <hex>` answered with Bits() and the result,
+        `u|i tobigw <hi:lo> <sign> <hex>` answered with the sign and Bits() of the destination afterwards; the model
+        (Conv.fromBigIntW / toBigIntW) answers for both sizes of big.Word, the harness for the one it was built with
+        (amd64: 64, GOARCH=386: 32)
+  format fmt.Formatter: `u|i format <hi:lo> <flags> <width> <precision> <verb>` answered with the text Format writes
+        when called with a fmt.State reporting exactly that, the text of fmt.Sprintf for the corresponding format string,
+        and what fmt.Sscanf with the same verb reads back; model Conv.U128.format / I128.format (AsBigInt, then
+        (*big.Int).Format transcribed from math/big) and Conv.*.scan of the token
   scan  fmt.Scanner entry points (Uint128.Scan / Int128.Scan): `u|i scan <verb> <hex token>` answered by the model's
         Conv.*.scan = fromString (scanText token verb) and, on the implementation side, by Sscanf / Fscanf with that
         verb (and Sscan / Sscanln / Fscan for the verb v) around the token (leading blanks, separators, a following
@@ -37,6 +48,218 @@ def _canon_no_consts(out):
     if out == "consts-unavailable" or _CONSTS.match(out):
         return "consts-not-compared"
     return out
+
+
+def _tok(t, consts):
+    t = t.strip()
+    if t in consts:
+        return consts[t]
+    if t == "math.MaxUint64":
+        return 2**64 - 1
+    if t == "math.MaxInt64":
+        return 2**63 - 1
+    try:
+        return int(t.replace("_", ""), 0)
+    except ValueError:
+        return None
+
+def _extract_source_facts(repo, goroot):
+    """Reads the constants and tables that lean/Model/Conv128*.lean copies by hand out of the working tree's sources.
+    Everything is optional: what a (behaviour-preserving) rewrite no longer spells in the expected form is reported as
+    not extracted, never guessed."""
+    out = {"signBit": None, "bounds": [], "maxBigUint128": None, "floatLiterals": [], "scanDefault": None, "scanVerbs": [],
+           "fmtBases": [], "fmtSharp": [], "fmtAlways": []}
+    try:
+        u = open(os.path.join(repo, "xmath/num/uint128.go")).read()
+        i = open(os.path.join(repo, "xmath/num/int128.go")).read()
+    except OSError:
+        return out
+    both = u + "\n" + i
+    consts = {}
+    m = re.search(r"^\s*signBit\s*=\s*(0[xX][0-9A-Fa-f_]+|\d+)\s*$", both, re.M)
+    if m:
+        out["signBit"] = int(m.group(1).replace("_", ""), 0)
+        consts["signBit"] = out["signBit"]
+    for name in ("MaxUint128", "MaxInt128", "MinInt128", "minInt128AsAbsUint128", "maxInt128AsUint128"):
+        m = re.search(r"^\s*(?:var\s+)?%s\s*=\s*U?[Ii]nt128\{\s*hi:\s*([^,}]+),\s*lo:\s*([^,}]+)\}\s*$" % name, both, re.M)
+        if m:
+            hi, lo = _tok(m.group(1), consts), _tok(m.group(2), consts)
+            if hi is not None and lo is not None and 0 <= hi < 2**64 and 0 <= lo < 2**64:
+                out["bounds"].append((name, hi, lo))
+    m = re.search(r'maxBigUint128\s*,\s*_\s*=\s*new\(big\.Int\)\.SetString\("([0-9A-Za-z_]+)",\s*(\d+)\)', both)
+    if m:
+        try:
+            out["maxBigUint128"] = int(m.group(1), int(m.group(2)))
+        except ValueError:
+            pass
+    for name in ("maxRepresentableUint128Float", "minInt128Float", "maxInt128Float"):
+        m = re.search(r"^\s*%s\s*=\s*(?:math\.Nextafter\()?float64\((-?\d+)\)" % name, both, re.M)
+        if m:
+            out["floatLiterals"].append((name, int(m.group(1))))
+    # scanText: the switch on the verb
+    m = re.search(r"func scanText\(text string, verb rune\) string \{(.*?)\n\}", u, re.S)
+    if m:
+        body = m.group(1)
+        d = re.search(r'letters\s*:=\s*"([^"\\]*)"', body)
+        sw = re.search(r"switch verb \{(.*?)\n\tdefault:", body, re.S)
+        if d and sw:
+            out["scanDefault"] = d.group(1)
+            arms = re.split(r"\n\tcase ", "\n" + sw.group(1).strip("\n"))
+            ok = True
+            verbs = []
+            for arm in arms:
+                if not arm.strip():
+                    continue
+                h = re.match(r"((?:'.'\s*,\s*)*'.'):(.*)", arm, re.S)
+                if not h:
+                    ok = False
+                    break
+                vs = re.findall(r"'(.)'", h.group(1))
+                rest = h.group(2)
+                p = re.search(r'prefix\s*=\s*"([^"\\]*)"', rest)
+                l = re.search(r'letters\s*=\s*"([^"\\]*)"', rest)
+                extra = re.sub(r'(prefix|letters)\s*=\s*"[^"\\]*"|//[^\n]*', "", rest).strip()
+                if extra:
+                    ok = False
+                    break
+                for v in vs:
+                    verbs.append((v, p.group(1) if p else "", l.group(1) if l else d.group(1)))
+            if ok:
+                out["scanVerbs"] = verbs
+            else:
+                out["scanDefault"] = None
+    # (*big.Int).Format of the toolchain the harness is built with
+    try:
+        g = open(os.path.join(goroot, "src/math/big/intconv.go")).read()
+        m = re.search(r"func \(x \*Int\) Format\(s fmt\.State, ch rune\) \{(.*?)\n\}", g, re.S)
+        if m:
+            body = m.group(1)
+            sw = re.search(r"switch ch \{(.*?)\n\tdefault:", body, re.S)
+            if sw:
+                for cm in re.finditer(r"case ((?:'.'\s*,\s*)*'.'):\s*\n\s*base = (\d+)", sw.group(1)):
+                    for v in re.findall(r"'(.)'", cm.group(1)):
+                        out["fmtBases"].append((v, int(cm.group(2))))
+            sh = re.search(r"if s\.Flag\('#'\) \{\s*switch ch \{(.*?)\n\t\t\}\n\t\}", body, re.S)
+            if sh:
+                for cm in re.finditer(r"case '(.)':[^\n]*\n\s*prefix = \"([^\"]*)\"", sh.group(1)):
+                    out["fmtSharp"].append((cm.group(1), cm.group(2)))
+            for cm in re.finditer(r"\n\tif ch == '(.)' \{\n\t\tprefix = \"([^\"]*)\"\n\t\}", body):
+                out["fmtAlways"].append((cm.group(1), cm.group(2)))
+    except OSError:
+        pass
+    return out
+
+def _ch(c):
+    return "'%s'" % c
+
+def _chars(t):
+    return "[" + ", ".join(_ch(c) for c in t) + "]"
+
+def _optnat(v):
+    return "none" if v is None else "some %d" % v
+
+BOUNDS = ("MaxUint128", "MaxInt128", "MinInt128", "minInt128AsAbsUint128", "maxInt128AsUint128")
+FLOATS = ("maxRepresentableUint128Float", "minInt128Float", "maxInt128Float")
+
+def _render_source_facts(f):
+    L = ["/-! GENERATED on every run by vlib/C02.py from the working tree's xmath/num/uint128.go, int128.go and from the",
+         "    toolchain's math/big/intconv.go — do not edit.  What the sources no longer spell in the expected form is `none` / `[]`. -/",
+         "namespace C02Facts", ""]
+    L.append("def signBit : Option Nat := %s" % _optnat(f["signBit"]))
+    b = {n: (hi, lo) for n, hi, lo in f["bounds"]}
+    for n in BOUNDS:
+        L.append("def %s : Option (Nat × Nat) := %s" % (n, "some (%d, %d)" % b[n] if n in b else "none"))
+    L.append("def maxBigUint128 : Option Nat := %s" % _optnat(f["maxBigUint128"]))
+    fl = dict(f["floatLiterals"])
+    for n in FLOATS:
+        L.append("def %s : Option Int := %s" % (n, "some (%d)" % fl[n] if n in fl else "none"))
+    L.append("def scanVerbs : List (Char × List Char × List Char) := [%s]" % ", ".join(
+        "(%s, %s, %s)" % (_ch(v), _chars(p), _chars(l)) for v, p, l in f["scanVerbs"]))
+    L.append("def fmtBases : List (Char × Nat) := [%s]" % ", ".join("(%s, %d)" % (_ch(v), b) for v, b in f["fmtBases"]))
+    L.append("def fmtSharp : List (Char × List Char) := [%s]" % ", ".join("(%s, %s)" % (_ch(v), _chars(p)) for v, p in f["fmtSharp"]))
+    L.append("def fmtAlways : List (Char × List Char) := [%s]" % ", ".join("(%s, %s)" % (_ch(v), _chars(p)) for v, p in f["fmtAlways"]))
+    L += ["", "end C02Facts", ""]
+    return "\n".join(L)
+
+
+
+def _goroot(ctx):
+    rc, out = core.sh(["go", "env", "GOROOT"], cwd=core.GO, env=core.env_go(), timeout=120)
+    return out.strip().splitlines()[-1] if rc == 0 and out.strip() else ""
+
+
+def _hook_source_facts(ctx):
+    """lean/Generated/C02Facts.lean is deleted and regenerated from the working tree on every run, inside the lock that
+    ctx.lean holds around fact generation and the Lean build (so that a concurrent run against another tree cannot mix
+    its facts in).  Props/C02.lean proves that the model's hand-copied constants and tables agree with it."""
+    orig = ctx._factgen
+
+    def factgen():
+        orig()
+        facts = _extract_source_facts(ctx.repo, _goroot(ctx))
+        dst = os.path.join(core.LEAN, "Generated", "C02Facts.lean")
+        try:
+            os.remove(dst)
+        except OSError:
+            pass
+        with open(dst + ".tmp", "w") as fh:
+            fh.write(_render_source_facts(facts))
+        os.replace(dst + ".tmp", dst)
+        ctx.extra["source_facts"] = {
+            "file": "lean/Generated/C02Facts.lean (regenerated on this run)",
+            "extracted": {k: (v if not isinstance(v, list) else len(v)) for k, v in facts.items()},
+            "not_extracted": sorted(k for k, v in facts.items() if v in (None, [])),
+        }
+    ctx._factgen = factgen
+
+
+def _wordsize(ctx, name):
+    """Size of big.Word in the named harness build (asked of the harness itself)."""
+    outs = ctx.run_impl("words", ["wordsize"], name, timeout=30)
+    if outs and outs[0] in ("W32", "W64"):
+        return outs[0]
+    return None
+
+
+def _canon_words(tag):
+    """Area `words`: the model answers every line for both sizes of big.Word (`W32 ... ;; W64 ...`); the comparison is
+    with the segment of the size the harness was built for."""
+    def canon(out):
+        if " ;; " in out:
+            for seg in out.split(" ;; "):
+                if seg.startswith(tag + " "):
+                    return seg
+        return out
+    return canon
+
+
+def _words(ctx, name, n):
+    tag = _wordsize(ctx, name)
+    if tag is None:
+        if name in ctx.harness_bin:
+            ctx.violations.append({"kind": "correspondence", "concrete": False,
+                                   "what": "harness %s does not report the size of big.Word (area words)" % name})
+        return
+    ctx.extra.setdefault("bigword_sizes", {})[name] = tag
+    ctx.diff(area="words", driver="drv_c02", name=name, n=n, canon=_canon_words(tag), timeout=300,
+             shards=2 if name != "harness" and ctx.tier == "quick" else None,
+             trivial=lambda l, o: False,
+             tagger=lambda l, o: tag + "." + ".".join(l.split(" ")[:2]),
+             theorem="C02.fromBigIntW_eq_value / toBigIntW_any_destination (the word-level switch and the slice handling "
+                     "compute the value-level functions); impl != model on this input",
+             what="FromBigInt / ToBigInt at the level of big.Words: Bits() before, result and Bits() after, %s build" % tag)
+
+
+def _format(ctx, name, n, tmo):
+    pre = "" if name == "harness" else "386."
+    ctx.diff(area="format", driver="drv_c02", name=name, n=n, timeout=tmo,
+             shards=2 if name != "harness" and ctx.tier == "quick" else None,
+             trivial=lambda l, o: o == "unsupported",
+             tagger=lambda l, o: pre + "format.%s.%s" % (l.split(" ")[-1], "unsupported" if o == "unsupported" else
+                                                         ("reads-back" if " ok:" in o else "no-read-back")),
+             theorem="C02.format_denotes / format_reads_back / format_reads_back_v (the text Format writes denotes the "
+                     "value and reads back through Scan with the same verb); impl != model on this input",
+             what="fmt.Formatter: Format called with a fmt.State, fmt.Sprintf, and fmt.Sscanf of the text with the same verb")
 
 
 def _build386(ctx):
@@ -98,14 +321,18 @@ HARDENING_AUDIT = {
                            "FromFloat64, FromBigInt, FromString, FromStringNoCheck, FromComponents, Components, IsZero, "
                            "ToBigInt(dst), AsBigInt, AsBigFloat, AsFloat64, Is*/As* (7), AbsUint128, String, Format, Scan, "
                            "MarshalText/JSON/YAML, UnmarshalText/JSON/YAML, Float64(), Int64(); FromRand is not covered by "
-                           "the property text and is not called",
+                           "the property text and is not called; Format is called directly with a fmt.State of the harness (every flag "
+                           "subset, widths / precisions 0..300) and through Sprintf, FromBigInt / ToBigInt also at the level of "
+                           "Bits() (area words) on a 64-bit and on a 32-bit big.Word build",
     "4 callback outcomes": "yaml unmarshal callback: stores, stores nothing, returns a fresh / sentinel / EOF error, panics "
                            "(string, error, typed nil pointer); fmt.ScanState whose Token fails (EOF, unexpected EOF, "
                            "sentinel) or delivers the token: the receiver must be untouched unless the load succeeds",
     "5 aliasing and reuse": "ToBigInt into fresh, emptied-wide, 1/2/3/5/40-word, negative, all-ones destinations and into the "
                             "result of another value's ToBigInt, twice; AsBigInt results mutated (words flipped in place) then "
                             "fresh results and the package constants re-checked; FromBigInt's argument unchanged; "
-                            "MarshalText result mutated; receivers reused after an error, then twice",
+                            "MarshalText result mutated; receivers reused after an error, then twice; area words: ToBigInt into "
+                            "destinations of 0..13 32-bit words (smallest / largest / top-bit / random value of each width, either "
+                            "sign) with Bits() of the result compared word for word; FromBigInt's argument checked unmodified",
     "6 shapes": "pre-filled struct / pointer / slice / map containers (json, yaml), null into pointer, **T, json.Decoder stream "
                 "into one variable, array element; Scan of several tokens with the rest left readable",
     "7 oracle independence": "values built / read through injected word accessors (not FromComponents / Components / IsZero); "
@@ -129,12 +356,25 @@ def run(ctx):
         "and run, see coverage.goarch386); big.Int.SetString(s, 0) and big.Rat.SetString "
         "are transcribed from go1.24.2 math/big (natconv.go, ratconv.go) as scanners on bytes",
         "String/MarshalText/MarshalJSON/MarshalYAML: decimal digit generation (strconv.FormatUint, big.Int.String) is "
-        "modelled by Conv.natDigits; fmt.Formatter, encoding/json and yaml.v3 plumbing is covered by the "
-        "implementation-side oracle `glue` only; fmt.Scanner (Scan) is modelled as `one blank-delimited token, "
+        "modelled by Conv.natDigits; Format (fmt.Formatter) is modelled as AsBigInt followed by (*big.Int).Format, "
+        "transcribed statement for statement from go1.24.2 math/big/intconv.go (Conv.bigFormat: base of the verb, sign, "
+        "base prefix, nat.utoa digits, precision zeros, width padding; flags, width and precision as the fmt.State "
+        "reports them) and compared in the area `format` with the method called directly and through fmt.Sprintf "
+        "(fmt's parsing of the format string is library plumbing; texts for verbs Format does not support are not "
+        "compared); encoding/json and yaml.v3 plumbing is covered by the implementation-side oracle `glue` only; fmt.Scanner (Scan) is modelled as `one blank-delimited token, "
         "FromString (scanText token verb)` (Conv.scanText transcribes the unexported helper scanText) and compared in "
         "the area `scan` (tokenisation itself is fmt's)",
         "the float range constants of package num are read through a `//go:build verif` accessor injected by -overlay "
         "(go/overlay/c02_consts.go) and compared with the model's constants (line `consts`); /repo is not modified",
+        "the constants and tables the model copies by hand (signBit, the bounds of both types, maxBigUint128, the integer "
+        "literals of the float range constants, the verb / prefix / letters table of scanText, and the verb / base / "
+        "prefix tables of the toolchain's (*big.Int).Format) are read out of the working tree's sources (and GOROOT) on "
+        "every run into lean/Generated/C02Facts.lean; C02.source_constants_agree / source_scan_table_agrees / "
+        "source_format_tables_agree prove the agreement (coverage.source_facts lists what was extracted; what a rewrite "
+        "no longer spells in the expected form is skipped, never guessed)",
+        "AsBigFloat is modelled as big.Float.SetInt (precision = max(bit length, 64), then rounding to that precision, "
+        "Conv.bigFloatSetInt) and proved exact (C02.asBigFloat_exact); UnmarshalYAML's callback and Scan's ScanState are "
+        "modelled as `fails or delivers a text` (Conv.*.unmarshalYAML / scanInto, C02.load_into_receiver)",
         "values are built from and read back as their two words through injected accessors (go/overlay/c02_words.go; "
         "memory layout under the nooverlay fallback), never through num.*FromComponents / Components, which are "
         "themselves compared (op `comps`); the oracles judge with math/big and the words only",
@@ -164,6 +404,7 @@ def run(ctx):
         "conversions float64 -> uint64 outside the target range are implementation-defined in Go; the model gives them "
         "the outcome implDefined and Props/C02 proves that the modelled code never evaluates one",
     ]
+    _hook_source_facts(ctx)
     ctx.lean(props=["Props.C02"], drivers=["drv_c02"])
     ctx.harness("./cmd/c02", overlay=OVERLAY)
     canon = None
@@ -185,6 +426,8 @@ def run(ctx):
              theorem="C02.scan_reads_back_* / fromString_spec (model = grammar); Scan reads one blank-delimited token and "
                      "must give FromString (scanText token verb); impl != model on this input",
              what="fmt.Scanner entry points Sscan/Sscanf/Sscanln/Fscan/Fscanf vs the model's fromString of the token")
+    _words(ctx, "harness", {"quick": 24000, "thorough": 600000})
+    _format(ctx, "harness", {"quick": 24000, "thorough": 600000}, tmo)
     ctx.impl_oracle("glue", n={"quick": 1000, "thorough": 40000}, timeout=tmo,
                     label="fmt/json/yaml/text/Scan/big.Float renderings equal math/big's and load back identically; "
                           "reused destinations, reused receivers, callback outcomes, pre-filled containers")
@@ -195,5 +438,7 @@ def run(ctx):
                  theorem="C02.* on a GOARCH=386 build (32-bit big.Word branches of ToBigInt / FromBigInt); impl != model "
                          "on this input",
                  what="same tie lines, harness built with GOARCH=386")
+        _words(ctx, "h386", {"quick": 8000, "thorough": 200000})
+        _format(ctx, "h386", {"quick": 6000, "thorough": 100000}, tmo)
         ctx.impl_oracle("glue", n={"quick": 300, "thorough": 8000}, name="h386", timeout=tmo,
                         label="glue oracle on a GOARCH=386 build (32-bit big.Word branches)")
